@@ -20,4 +20,375 @@ theorem u32s_le32s (vs : List Nat) (h : ∀ v ∈ vs, v < 4294967296) : u32s (le
     congr 1
     exact ih (fun w hw => h w (by simp [hw]))
 
+/-! ## `Sectors::get` is independent of the cache; chain following -/
+
+/-- sector `id` of a sector area `body` (what `Sectors::get` returns, independent of the cache) -/
+def sec (body : Bytes) (ss id : Nat) : Bytes := (body.drop (id * ss)).take ss
+
+theorem slice_lemma (body : Bytes) (st size L : Nat) (h1 : min (st + size) body.length ≤ L) (h2 : L ≤ body.length) :
+    ((body.take L).drop (min st L)).take (min (st + size) L - min st L) = (body.drop st).take size := by
+  apply List.ext_getElem?
+  intro i
+  rw [List.getElem?_take, List.getElem?_take, List.getElem?_drop, List.getElem?_drop, List.getElem?_take]
+  by_cases hi : i < size
+  · by_cases hb : st + i < body.length
+    · have e1 : min st L = st := by omega
+      have c1 : i < min (st+size) L - min st L := by omega
+      have c2 : min st L + i < L := by omega
+      rw [if_pos c1, if_pos c2, if_pos hi, e1]
+    · rw [if_pos hi]
+      have : body[st + i]? = none := List.getElem?_eq_none (by omega)
+      rw [this]
+      split
+      · split
+        · omega
+        · rfl
+      · rfl
+  · rw [if_neg hi, if_neg (by omega)]
+
+theorem get_core (data body : Bytes) (st size L : Nat) (hp : data = body.take L) (h2 : L ≤ body.length)
+    (h1 : min (st + size) body.length ≤ L) :
+    (data.drop (min st data.length)).take (min (st + size) data.length - min st data.length) =
+      (body.drop st).take size := by
+  subst hp
+  have : (List.take L body).length = L := by rw [List.length_take]; omega
+  rw [this]
+  exact slice_lemma body st size L h1 h2
+
+theorem Sectors.get_spec (s : Sectors) (id : Nat) (rd body : Bytes) (h : s.data ++ rd = body) :
+    (s.get id rd).1 = sec body s.size id ∧ (s.get id rd).2.1.data ++ (s.get id rd).2.2 = body ∧
+    (s.get id rd).2.1.size = s.size := by
+  subst h
+  unfold Sectors.get sec
+  generalize id * s.size = st
+  by_cases hc : st + s.size > s.data.length
+  · simp only [hc, if_true]
+    refine ⟨?_, by simp, trivial⟩
+    apply get_core _ _ _ _ (s.data.length + min (st + s.size - s.data.length) rd.length)
+    · rw [List.take_append]
+      have e1 : List.take (s.data.length + min (st + s.size - s.data.length) rd.length) s.data = s.data :=
+        List.take_of_length_le (by omega)
+      rw [e1, Nat.add_sub_cancel_left, ← List.take_eq_take_min]
+    · simp only [List.length_append]; omega
+    · simp only [List.length_append]; omega
+  · simp only [hc, if_false]
+    refine ⟨?_, trivial, trivial⟩
+    apply get_core _ _ _ _ s.data.length
+    · simp
+    · simp only [List.length_append]; omega
+    · simp only [List.length_append]; omega
+theorem chainLoop_end (fats : List Nat) (rem : Nat) (s : Sectors) (rd : Bytes) :
+    Sectors.chainLoop fats rem ENDOFCHAIN s rd = .ok ([], s, rd) := by
+  cases rem <;> simp [Sectors.chainLoop]
+
+theorem chainLoop_follow (fats : List Nat) (body : Bytes) :
+    ∀ (ids : List Nat) (rem : Nat) (s : Sectors) (rd : Bytes),
+      s.data ++ rd = body → ids.length ≤ rem →
+      (∀ i (h : i < ids.length), ids[i] ≠ ENDOFCHAIN ∧ fats[ids[i]]? = some (ids[i+1]?.getD ENDOFCHAIN)) →
+      ∃ s' rd', Sectors.chainLoop fats rem (ids[0]?.getD ENDOFCHAIN) s rd =
+          .ok ((ids.map (sec body s.size)).flatten, s', rd') ∧ s'.data ++ rd' = body ∧ s'.size = s.size := by
+  intro ids
+  induction ids with
+  | nil =>
+    intro rem s rd hinv _ _
+    exact ⟨s, rd, by simp [chainLoop_end], hinv, rfl⟩
+  | cons a rest ih =>
+    intro rem s rd hinv hrem hch
+    obtain ⟨rem', rfl⟩ : ∃ r, rem = r + 1 := ⟨rem - 1, by simp at hrem; omega⟩
+    have h0 := hch 0 (by simp)
+    simp only [List.getElem_cons_zero, Nat.zero_add, List.getElem?_cons_succ] at h0
+    obtain ⟨hne, hfat⟩ := h0
+    obtain ⟨hg1, hg2, hg3⟩ := Sectors.get_spec s a rd body hinv
+    have hrest := ih rem' (s.get a rd).2.1 (s.get a rd).2.2 hg2 (by simp at hrem; omega) (by
+      intro i hi
+      have := hch (i + 1) (by simp; omega)
+      simpa using this)
+    obtain ⟨s', rd', he, hi', hs'⟩ := hrest
+    refine ⟨s', rd', ?_, hi', by rw [hs', hg3]⟩
+    simp only [List.getElem?_cons_zero, Option.getD_some]
+    unfold Sectors.chainLoop
+    simp only [hne, if_false, hfat]
+    rw [he]
+    simp only [List.map_cons, List.flatten_cons, hg1, hg3]
+
+/-! ## sector-sized pieces -/
+
+theorem padChunks_all_len (ss : Nat) (fill : UInt8) : ∀ (f : Nat) (d : Bytes), ∀ x ∈ padChunks ss fill f d, x.length = ss := by
+  intro f
+  induction f with
+  | zero => intro d x hx; simp [padChunks] at hx
+  | succ f ih =>
+    intro d x hx
+    unfold padChunks at hx
+    split at hx
+    · simp at hx
+    · simp only [List.mem_cons] at hx
+      rcases hx with rfl | hx
+      · simp only [List.length_append, List.length_take, List.length_replicate]; omega
+      · exact ih _ x hx
+
+theorem padChunks_flatten_take (ss : Nat) (fill : UInt8) (hss : 0 < ss) :
+    ∀ (f : Nat) (d : Bytes), d.length ≤ f → ((padChunks ss fill f d).flatten).take d.length = d := by
+  intro f
+  induction f with
+  | zero => intro d hd; have : d = [] := List.eq_nil_of_length_eq_zero (by omega); subst this; simp [padChunks]
+  | succ f ih =>
+    intro d hd
+    unfold padChunks
+    split
+    · rename_i h; subst h; simp
+    · rename_i hne
+      simp only [List.flatten_cons]
+      by_cases hle : d.length ≤ ss
+      · rw [List.take_of_length_le hle, List.append_assoc, List.take_append_of_le_length (by omega)]
+        simp
+      · have h1 : (List.take ss d).length = ss := by rw [List.length_take]; omega
+        rw [h1, Nat.sub_self, List.replicate_zero, List.append_nil, List.take_append]
+        rw [h1, List.take_of_length_le (by omega)]
+        have := ih (d.drop ss) (by simp; omega)
+        rw [List.length_drop] at this
+        rw [this, List.take_append_drop]
+
+theorem nsect_zero (ss : Nat) (hss : 0 < ss) : nsect ss 0 = 0 := by
+  unfold nsect; apply Nat.div_eq_of_lt; omega
+
+theorem padChunks_length (ss : Nat) (fill : UInt8) (hss : 0 < ss) :
+    ∀ (f : Nat) (d : Bytes), d.length ≤ f → (padChunks ss fill f d).length = nsect ss d.length := by
+  intro f
+  induction f with
+  | zero => intro d hd; have : d = [] := List.eq_nil_of_length_eq_zero (by omega); subst this; simp [padChunks, nsect_zero ss hss]
+  | succ f ih =>
+    intro d hd
+    unfold padChunks
+    split
+    · rename_i h; subst h; simp [nsect_zero ss hss]
+    · rename_i hne
+      have hpos : 0 < d.length := List.length_pos_iff.mpr hne
+      simp only [List.length_cons]
+      rw [ih (d.drop ss) (by simp; omega), List.length_drop]
+      unfold nsect
+      by_cases hle : d.length ≤ ss
+      · have : d.length - ss = 0 := by omega
+        rw [this]
+        have e1 : (0 + ss - 1) / ss = 0 := by apply Nat.div_eq_of_lt; omega
+        have e2 : (d.length + ss - 1) / ss = 1 := by
+          apply Nat.div_eq_of_lt_le <;> omega
+        omega
+      · have : d.length + ss - 1 = (d.length - ss + ss - 1) + ss := by omega
+        rw [this, Nat.add_div_right _ hss]
+
+theorem sec_flatten (ss : Nat) : ∀ (L : List Bytes) (k : Nat) (hk : k < L.length),
+    (∀ x ∈ L, x.length = ss) → sec L.flatten ss k = L[k] := by
+  intro L
+  induction L with
+  | nil => intro k hk; simp at hk
+  | cons x xs ih =>
+    intro k hk hall
+    have hx : x.length = ss := hall x (by simp)
+    cases k with
+    | zero =>
+      simp only [sec, Nat.zero_mul, List.drop_zero, List.flatten_cons, List.getElem_cons_zero]
+      rw [List.take_append_of_le_length (by omega), List.take_of_length_le (by omega)]
+    | succ k =>
+      simp only [List.getElem_cons_succ]
+      rw [← ih k (by simpa using hk) (fun y hy => hall y (by simp [hy]))]
+      simp only [sec, List.flatten_cons]
+      have : (k + 1) * ss = x.length + k * ss := by rw [hx, Nat.add_mul]; omega
+      rw [this, List.drop_append, List.drop_of_length_le (by omega), Nat.add_sub_cancel_left, List.nil_append]
+
+/-! ## allocation tables of a space -/
+
+
+/-- the allocation table of a space, `len` entries -/
+def Space.fats (sp : Space) (len : Nat) : List Nat := (List.range len).map sp.entry
+
+/-- sector numbers of chain `c` -/
+def Space.ids (sp : Space) (c : Nat) : List Nat :=
+  match sp.chains[c]? with
+  | some ch => ch.toList
+  | none => []
+
+theorem chainOK_spec (sp : Space) (c n : Nat) (h : chainOK sp c n = true) :
+    ∃ ch, sp.chains[c]? = some ch ∧ ch.size = n ∧
+      ∀ i, i < n → ∃ k, ch[i]? = some k ∧ sp.owner[k]? = some (Slot.data c i) := by
+  unfold chainOK at h
+  split at h
+  · simp at h
+  · rename_i ch hch
+    simp only [Bool.and_eq_true, beq_iff_eq, List.all_eq_true, List.mem_range] at h
+    refine ⟨ch, hch, h.1, ?_⟩
+    intro i hi
+    have := h.2 i hi
+    split at this
+    · rename_i k hk; exact ⟨k, hk, by simpa using this⟩
+    · simp at this
+
+theorem Space.ids_spec (sp : Space) (c n : Nat) (h : chainOK sp c n = true) :
+    (sp.ids c).length = n ∧ ∀ i (hi : i < (sp.ids c).length), sp.owner[(sp.ids c)[i]]? = some (Slot.data c i) := by
+  obtain ⟨ch, hch, hn, hall⟩ := chainOK_spec sp c n h
+  unfold Space.ids
+  simp only [hch]
+  refine ⟨by simpa using hn, ?_⟩
+  intro i hi
+  obtain ⟨k, hk, ho⟩ := hall i (by simpa [hn] using hi)
+  have : ch.toList[i] = k := by
+    have h2 : ch.toList[i]? = some k := by simpa using hk
+    rw [List.getElem?_eq_getElem hi] at h2
+    exact Option.some.inj h2
+  rw [this]; exact ho
+
+theorem Space.ids_lt (sp : Space) (c n : Nat) (h : chainOK sp c n = true) :
+    ∀ x ∈ sp.ids c, x < sp.owner.size := by
+  intro x hx
+  obtain ⟨i, hi, rfl⟩ := List.getElem_of_mem hx
+  have := (Space.ids_spec sp c n h).2 i hi
+  by_cases hlt : (sp.ids c)[i] < sp.owner.size
+  · exact hlt
+  · rw [Array.getElem?_eq_none (by omega)] at this; cases this
+
+theorem Space.ids_nodup (sp : Space) (c n : Nat) (h : chainOK sp c n = true) : (sp.ids c).Nodup := by
+  rw [List.Nodup, List.pairwise_iff_getElem]
+  intro i j hi hj hij heq
+  have h1 := (Space.ids_spec sp c n h).2 i hi
+  have h2 := (Space.ids_spec sp c n h).2 j hj
+  rw [heq, h2] at h1
+  injection h1 with h1
+  injection h1 with _ h1
+  omega
+
+theorem Space.ids_length_le (sp : Space) (c n : Nat) (h : chainOK sp c n = true) :
+    (sp.ids c).length ≤ sp.owner.size := by
+  have := List.Nodup.length_le_of_subset (Space.ids_nodup sp c n h) (l₂ := List.range sp.owner.size)
+    (fun x hx => by simpa using Space.ids_lt sp c n h x hx)
+  simpa using this
+
+theorem Space.fats_get (sp : Space) (len k : Nat) (hk : k < len) : (sp.fats len)[k]? = some (sp.entry k) := by
+  simp [Space.fats, List.getElem?_map, List.getElem?_range hk]
+
+/-- the allocation table of a space records each of its chains -/
+theorem Space.fats_chain (sp : Space) (c n len : Nat) (h : chainOK sp c n = true)
+    (hlen : sp.owner.size ≤ len) (hres : sp.owner.size ≤ RESERVED) :
+    ∀ i (hi : i < (sp.ids c).length), (sp.ids c)[i] ≠ ENDOFCHAIN ∧
+      (sp.fats len)[(sp.ids c)[i]]? = some ((sp.ids c)[i + 1]?.getD ENDOFCHAIN) := by
+  intro i hi
+  have hlt := Space.ids_lt sp c n h _ (List.getElem_mem hi)
+  have hown := (Space.ids_spec sp c n h).2 i hi
+  refine ⟨by simp only [RESERVED, ENDOFCHAIN] at *; omega, ?_⟩
+  rw [Space.fats_get sp len _ (by omega)]
+  congr 1
+  unfold Space.entry
+  rw [hown]
+  simp only [fatEntry]
+  unfold Space.ids
+  split
+  · rename_i ch hch; simp [hch]
+  · rename_i hch; simp [hch]
+
+
+/-! ## sector contents of a space -/
+
+/-- every sector written by the encoder has exactly `ss` bytes -/
+def UniformP (ss : Nat) (P : Array (Array Bytes)) : Prop :=
+  ∀ (c : Nat) (p : Array Bytes), P[c]? = some p → ∀ (i : Nat) (x : Bytes), p[i]? = some x → x.length = ss
+
+theorem sectorOf_length (ss : Nat) (fill : UInt8) (P : Array (Array Bytes)) (fatSec difSec : Nat → Bytes)
+    (hP : UniformP ss P) (hf : ∀ j, (fatSec j).length = ss) (hd : ∀ j, (difSec j).length = ss) (s : Slot) :
+    (sectorOf ss fill P fatSec difSec s).length = ss := by
+  cases s with
+  | free => simp [sectorOf]
+  | fat j => exact hf j
+  | difat j => exact hd j
+  | data c i =>
+    simp only [sectorOf]
+    split
+    · rename_i p hp
+      cases hx : p[i]? with
+      | none => simp
+      | some x => simpa using hP c p hp i x hx
+    · simp
+
+theorem Space.body_sec (sp : Space) (ss : Nat) (fill : UInt8) (P : Array (Array Bytes)) (fatSec difSec : Nat → Bytes)
+    (hP : UniformP ss P) (hf : ∀ j, (fatSec j).length = ss) (hd : ∀ j, (difSec j).length = ss)
+    (k : Nat) (s : Slot) (hk : sp.owner[k]? = some s) :
+    sec (sp.body ss fill P fatSec difSec) ss k = sectorOf ss fill P fatSec difSec s := by
+  unfold Space.body
+  have hlt : k < sp.owner.size := by
+    by_cases h : k < sp.owner.size
+    · exact h
+    · rw [Array.getElem?_eq_none (by omega)] at hk; cases hk
+  rw [sec_flatten ss _ k (by simpa using hlt)]
+  · simp only [List.getElem_map]
+    congr 1
+    have : sp.owner.toList[k]? = some s := by simpa using hk
+    rw [List.getElem?_eq_getElem (by simpa using hlt)] at this
+    exact Option.some.inj this
+  · intro x hx
+    simp only [List.mem_map] at hx
+    obtain ⟨s', _, rfl⟩ := hx
+    exact sectorOf_length ss fill P fatSec difSec hP hf hd s'
+
+theorem pieces_uniform (ss : Nat) (fill : UInt8) (d : Bytes) (i : Nat) (x : Bytes)
+    (h : (pieces ss fill d)[i]? = some x) : x.length = ss := by
+  unfold pieces at h
+  have : x ∈ padChunks ss fill d.length d := by
+    have h2 : (padChunks ss fill d.length d)[i]? = some x := by simpa using h
+    exact List.mem_of_getElem? h2
+  exact padChunks_all_len ss fill _ _ x this
+
+/-- reading the sectors of chain `c` in chain order yields the chain's data cut into padded pieces -/
+theorem Space.read_chain (sp : Space) (ss : Nat) (hss : 0 < ss) (fill : UInt8) (P : Array (Array Bytes))
+    (fatSec difSec : Nat → Bytes)
+    (hP : UniformP ss P) (hf : ∀ j, (fatSec j).length = ss) (hd : ∀ j, (difSec j).length = ss)
+    (c : Nat) (D : Bytes) (hPc : P[c]? = some (pieces ss fill D))
+    (hok : chainOK sp c (nsect ss D.length) = true) :
+    (sp.ids c).map (sec (sp.body ss fill P fatSec difSec) ss) = padChunks ss fill D.length D := by
+  obtain ⟨hlen, hown⟩ := Space.ids_spec sp c _ hok
+  have hpl := padChunks_length ss fill hss D.length D (Nat.le_refl _)
+  apply List.ext_getElem
+  · simp [hlen, hpl]
+  · intro i h1 h2
+    simp only [List.getElem_map]
+    have hi : i < (sp.ids c).length := by simpa using h1
+    rw [Space.body_sec sp ss fill P fatSec difSec hP hf hd _ _ (hown i hi)]
+    simp only [sectorOf, hPc, pieces]
+    simp [List.getElem?_eq_getElem h2]
+
+
+/-! ## reading a chain of a space -/
+
+theorem chainStart_eq (sp : Space) (c : Nat) : chainStart sp c = (sp.ids c)[0]?.getD ENDOFCHAIN := by
+  unfold chainStart Space.ids
+  cases h : sp.chains[c]? with
+  | none => rfl
+  | some ch => simp
+
+theorem Space.fats_length (sp : Space) (len : Nat) : (sp.fats len).length = len := by simp [Space.fats]
+
+/-- `get_chain` on chain `c` of a space returns the chain's data, truncated to its length -/
+theorem Space.getChain_data (sp : Space) (ss : Nat) (hss : 0 < ss) (fill : UInt8) (P : Array (Array Bytes))
+    (fatSec difSec : Nat → Bytes)
+    (hP : UniformP ss P) (hf : ∀ j, (fatSec j).length = ss) (hd : ∀ j, (difSec j).length = ss)
+    (c : Nat) (D : Bytes) (hPc : P[c]? = some (pieces ss fill D))
+    (hok : chainOK sp c (nsect ss D.length) = true)
+    (len : Nat) (hlen : sp.owner.size ≤ len) (hres : sp.owner.size ≤ RESERVED)
+    (s : Sectors) (rd : Bytes) (hsz : s.size = ss) (hinv : s.data ++ rd = sp.body ss fill P fatSec difSec) :
+    ∃ s' rd', s.getChain (chainStart sp c) (sp.fats len) rd D.length = .ok (D, s', rd') ∧
+      s'.data ++ rd' = sp.body ss fill P fatSec difSec ∧ s'.size = ss := by
+  have hfol := chainLoop_follow (sp.fats len) _ (sp.ids c) (sp.fats len).length s rd hinv
+    (by rw [Space.fats_length]; exact Nat.le_trans (Space.ids_length_le sp c _ hok) hlen)
+    (Space.fats_chain sp c _ len hok hlen hres)
+  obtain ⟨s', rd', he, hi, hs⟩ := hfol
+  refine ⟨s', rd', ?_, hi, by rw [hs, hsz]⟩
+  unfold Sectors.getChain
+  rw [chainStart_eq, he]
+  simp only
+  rw [hsz, Space.read_chain sp ss hss fill P fatSec difSec hP hf hd c D hPc hok]
+  congr 2
+  split
+  · exact padChunks_flatten_take ss fill hss _ D (Nat.le_refl _)
+  · rename_i h
+    have : D = [] := List.eq_nil_of_length_eq_zero (by omega)
+    subst this
+    simp [padChunks]
+
 end Cfb
